@@ -385,6 +385,14 @@ def _expand(u, path, canary):
         elif s.startswith("//@include"):
             inc = s.split()[1]
             _expand(u, os.path.join(VERIF, inc), canary)
+        elif s.startswith("//@use-missing"):
+            # stubs (with their contracts) for every listed wrapper this unit has not declared itself, so
+            # that code which starts to call one of them is checked against its precondition instead of
+            # being rejected as "cannot find function"
+            have = set(f["key"].split("__")[0] for f in u.functions)
+            for key in s.split()[1:]:
+                if key not in have:
+                    splice_function(u, load_spec(key), "use", canary, ())
         elif s.startswith("//@prove") or s.startswith("//@use"):
             mode = "prove" if s.startswith("//@prove") else "use"
             key = s.split()[1]
